@@ -82,7 +82,7 @@ func TestVerif_C17_body(t *testing.T) {
 		rawSet := false
 		var marshalVal interface{}
 		marshalSet := false
-		multipartOn := false
+		multipartOn, emptyField, unsafeField := false, false, false
 		var files []c17File
 		kindBits := r.Intn(16)
 		if kindBits&1 != 0 && r.Intn(2) == 0 { // raw body
@@ -155,14 +155,19 @@ func TestVerif_C17_body(t *testing.T) {
 		}
 		if r.Intn(5) == 0 {
 			multipartOn = true
-			// multipart field names must be carriable by a header (stdlib writes them raw)
+			// multipart field names: any bytes (quoted like file names); an empty one is refused
 			for _, k := range append(append([]string{}, rq.keys...), cl.keys...) {
-				if k == "" || c17HasUnsafe(k) {
-					multipartOn = false
+				if k == "" {
+					emptyField = true
+				} else if c17HasUnsafe(k) {
+					unsafeField = true
 				}
 			}
-			if len(cl.keys) > 0 && len(pairs) > 0 {
-				multipartOn = false // one class of known finding per case
+			if len(cl.keys) > 0 && (len(pairs) > 0 || emptyField || unsafeField) {
+				multipartOn, emptyField, unsafeField = false, false, false // one class of known finding per case
+			}
+			if len(pairs) > 0 && len(rq.keys) > 0 && (emptyField || unsafeField) {
+				multipartOn, emptyField, unsafeField = false, false, false
 			}
 			if multipartOn {
 				req.EnableForceMultipart()
@@ -170,6 +175,9 @@ func TestVerif_C17_body(t *testing.T) {
 					files = append(files, c17GenFile(r, req, t.TempDir(), i, false, b, true))
 				}
 			}
+		}
+		if !multipartOn {
+			emptyField, unsafeField = false, false
 		}
 		odd := len(ordArgs)%2 == 1
 		failed, body, ct := c17RunBodyMiddleware(c, req)
@@ -208,6 +216,9 @@ func TestVerif_C17_body(t *testing.T) {
 		case odd:
 			ok = failed
 			s.Count("ordered-odd")
+		case emptyField:
+			ok = failed
+			s.Count("multipart-empty-field-name")
 		case failed:
 			ok = marshalSet && !hasForm && !multipartOn // only an unmarshallable value may fail
 			s.Count("failed")
@@ -261,6 +272,11 @@ func TestVerif_C17_body(t *testing.T) {
 		case forbid:
 		case odd:
 			class = "c17-ordered-odd"
+		case emptyField:
+			class = "c17-field-name-empty"
+		case unsafeField:
+			class = "c17-field-name-ctl"
+			s.Count("multipart-ctl-field-name")
 		case multipartOn && len(cl.keys) > 0:
 			class = "c17-client-form-multipart"
 		case len(pairs) > 0 && (len(rq.keys) > 0 || len(cl.keys) > 0):
